@@ -474,7 +474,9 @@ def sample_env(ob, specs, rng):
         if lo is not None and hi is not None:
             env[name] = rng.uniform(float(lo), float(hi))
         elif sp['pos'] or (lo is not None and lo >= 0):
-            env[name] = (float(lo) if lo else 0.0) + math.exp(rng.uniform(-1.2, 1.2))
+            # mostly moderate values, sometimes many decades away (size-dependent branches)
+            spread = 1.2 if rng.random() < 0.7 else 7.0
+            env[name] = (float(lo) if lo else 0.0) + math.exp(rng.uniform(-spread, spread))
         elif lo is not None:
             env[name] = float(lo) + math.exp(rng.uniform(-1.2, 1.2))
         elif hi is not None:
@@ -965,6 +967,19 @@ def run_obligation(ob, seed=0, timeout_scale=1.0):
                                                           discrepancy=rep.get('discrepancy'),
                                                           failed=rep.get('failed')))
                         else:
+                            # the model does not replay (over-abstracted function or rounding): a burst of
+                            # float probes decides whether there is a real, reproducible violation nearby
+                            if not probed_more and ob.nvalid:
+                                probed_more = True
+                                for _ in range(60):
+                                    env2 = sample_env(ob, p.sess.specs, rng)
+                                    _concrete_probe(ob, p, env2, res, 'random-probe-after-unreplayable-model')
+                                    if res['violations']:
+                                        break
+                            if res['violations']:
+                                entry['verdict'] = 'sat'
+                                res['claims'].append(entry)
+                                break
                             entry['verdict'] = 'sat-not-reproduced'
                             entry['replay_detail'] = rep
                             res['errors'].append(f"claim {name}: solver model did not reproduce "
